@@ -1,8 +1,106 @@
 ------------------------------- MODULE SigHash -------------------------------
-(* STAGE-1 STUB (no transaction context).  Replaced by the full legacy / BIP143 / BIP341 digests. *)
-EXTENDS Bytes
-LegacyDigest(ctx, scriptCode, hashtype) == Zeros(32)
-WitV0Digest(ctx, scriptCode, hashtype) == Zeros(32)
-\* <<ok, digest>>
-TaprootDigest(ctx, vm, hashtype, keyPath) == <<FALSE, Zeros(32)>>
+(***************************************************************************)
+(* The three signature digests of Bitcoin, built byte by byte:             *)
+(*   legacy (with OP_CODESEPARATOR removal, input/output blanking per hash  *)
+(*   type, the SIGHASH_SINGLE out-of-range "one" digest),                   *)
+(*   BIP143 (segwit v0), BIP341/342 (taproot key path and tapscript).       *)
+(* ctx: tx (TxCodec record), nin (0-based), amount (8 bytes LE), spent      *)
+(*      (sequence of [amount, script] for every input), annex (<<present,   *)
+(*      bytes>>), leafhash.  vm: cbegin, cspos.                             *)
+(***************************************************************************)
+EXTENDS TxCodec, ScriptCodec
+
+SIGHASH_ALL == 1
+SIGHASH_NONE == 2
+SIGHASH_SINGLE == 3
+Base5(h) == h % 32                      \* nHashType & 0x1f
+ACP(h) == h >= 128                      \* SIGHASH_ANYONECANPAY bit
+One32 == <<1>> \o Zeros(31)
+Zero32 == Zeros(32)
+HashTypeLE(h) == <<h, 0, 0, 0>>
+
+(******************************** legacy ************************************)
+LegacyScriptCode(code) == WriteVarBytes(StripCodeSep(code))
+
+LegacyInput(tx, k, nin, code, h) ==  \* k, nin 1-based
+    LET i == tx.vin[k]
+        blankSeq == k # nin /\ Base5(h) \in {SIGHASH_NONE, SIGHASH_SINGLE}
+    IN i.txid \o i.n \o (IF k = nin THEN LegacyScriptCode(code) ELSE <<0>>) \o (IF blankSeq THEN Zeros(4) ELSE i.sequence)
+
+RECURSIVE LegacyInputs(_, _, _, _, _)
+LegacyInputs(tx, k, nin, code, h) ==
+    IF k > Len(tx.vin) THEN <<>> ELSE LegacyInput(tx, k, nin, code, h) \o LegacyInputs(tx, k + 1, nin, code, h)
+
+RECURSIVE LegacyOutputs(_, _, _, _, _)
+LegacyOutputs(tx, k, count, nin, h) ==
+    IF k > count THEN <<>>
+    ELSE (IF Base5(h) = SIGHASH_SINGLE /\ k # nin THEN Repeat(255, 8) \o <<0>> ELSE SerOutput(tx.vout[k]))
+         \o LegacyOutputs(tx, k + 1, count, nin, h)
+
+LegacyPreimage(tx, nin0, code, h) ==
+    LET nin == nin0 + 1
+        nOut == IF Base5(h) = SIGHASH_NONE THEN 0 ELSE IF Base5(h) = SIGHASH_SINGLE THEN nin ELSE Len(tx.vout)
+    IN tx.version
+       \o (IF ACP(h) THEN <<1>> \o LegacyInput(tx, nin, nin, code, h)
+           ELSE WriteCompact(Len(tx.vin)) \o LegacyInputs(tx, 1, nin, code, h))
+       \o WriteCompact(nOut) \o LegacyOutputs(tx, 1, nOut, nin, h)
+       \o tx.locktime \o HashTypeLE(h)
+
+LegacyDigest(ctx, scriptCode, h) ==
+    IF Base5(h) = SIGHASH_SINGLE /\ ctx.nin >= Len(ctx.tx.vout) THEN One32
+    ELSE Hash256(LegacyPreimage(ctx.tx, ctx.nin, scriptCode, h))
+
+(******************************** BIP143 ************************************)
+Prevouts(tx) == ConcatMap(LAMBDA i : i.txid \o i.n, tx.vin, 1)
+Sequences(tx) == ConcatMap(LAMBDA i : i.sequence, tx.vin, 1)
+Outputs(tx) == ConcatMap(SerOutput, tx.vout, 1)
+
+WitV0Preimage(tx, nin0, code, amount, h) ==
+    LET i == tx.vin[nin0 + 1]
+        single == Base5(h) = SIGHASH_SINGLE
+        none == Base5(h) = SIGHASH_NONE
+        hashPrevouts == IF ACP(h) THEN Zero32 ELSE Hash256(Prevouts(tx))
+        hashSequence == IF ~ACP(h) /\ ~single /\ ~none THEN Hash256(Sequences(tx)) ELSE Zero32
+        hashOutputs == IF ~single /\ ~none THEN Hash256(Outputs(tx))
+                       ELSE IF single /\ nin0 < Len(tx.vout) THEN Hash256(SerOutput(tx.vout[nin0 + 1]))
+                       ELSE Zero32
+    IN tx.version \o hashPrevouts \o hashSequence \o i.txid \o i.n \o WriteVarBytes(code) \o amount \o i.sequence
+       \o hashOutputs \o tx.locktime \o HashTypeLE(h)
+
+WitV0Digest(ctx, scriptCode, h) == Hash256(WitV0Preimage(ctx.tx, ctx.nin, scriptCode, ctx.amount, h))
+
+(****************************** BIP341 / 342 ********************************)
+ValidTapHashType(h) == h <= 3 \/ (h >= 129 /\ h <= 131)
+SpentAmounts(spent) == ConcatMap(LAMBDA o : o.amount, spent, 1)
+SpentScripts(spent) == ConcatMap(LAMBDA o : WriteVarBytes(o.script), spent, 1)
+CodeSepLE(cspos) == IF cspos < 0 THEN <<255, 255, 255, 255>> ELSE LE32(cspos)
+
+\* <<ok, message>>: the message that is tagged-hashed with "TapSighash"
+TaprootMessage(ctx, vm, h, keyPath) ==
+    LET tx == ctx.tx
+        nin0 == ctx.nin
+        outType == IF h = 0 THEN SIGHASH_ALL ELSE h % 4
+        acp == h >= 128
+        ext == IF keyPath THEN 0 ELSE 1
+        annexPresent == ctx.annex[1]
+        spendType == 2 * ext + (IF annexPresent THEN 1 ELSE 0)
+        i == tx.vin[nin0 + 1]
+    IN IF ~ValidTapHashType(h) THEN <<FALSE, <<>>>>
+       ELSE IF Len(ctx.spent) # Len(tx.vin) THEN <<FALSE, <<>>>>                      \* spent outputs of every input are needed
+       ELSE IF outType = SIGHASH_SINGLE /\ nin0 >= Len(tx.vout) THEN <<FALSE, <<>>>>
+       ELSE <<TRUE,
+              <<0>> \o <<h>> \o tx.version \o tx.locktime
+              \o (IF ~acp THEN SHA256(Prevouts(tx)) \o SHA256(SpentAmounts(ctx.spent)) \o SHA256(SpentScripts(ctx.spent)) \o SHA256(Sequences(tx))
+                  ELSE <<>>)
+              \o (IF outType = SIGHASH_ALL THEN SHA256(Outputs(tx)) ELSE <<>>)
+              \o <<spendType>>
+              \o (IF acp THEN i.txid \o i.n \o ctx.spent[nin0 + 1].amount \o WriteVarBytes(ctx.spent[nin0 + 1].script) \o i.sequence
+                  ELSE LE32(nin0))
+              \o (IF annexPresent THEN SHA256(WriteVarBytes(ctx.annex[2])) ELSE <<>>)
+              \o (IF outType = SIGHASH_SINGLE THEN SHA256(SerOutput(tx.vout[nin0 + 1])) ELSE <<>>)
+              \o (IF keyPath THEN <<>> ELSE ctx.leafhash \o <<0>> \o CodeSepLE(vm.cspos))>>
+
+TaprootDigest(ctx, vm, h, keyPath) ==
+    LET m == TaprootMessage(ctx, vm, h, keyPath)
+    IN IF ~m[1] THEN <<FALSE, Zero32>> ELSE <<TRUE, TaggedHash("TapSighash", m[2])>>
 =============================================================================
